@@ -374,7 +374,7 @@ structure DnsRecords where
   dsDigest : Bytes
   deriving DecidableEq, Repr, Inhabited
 
-/-- `DNSRecords.from_key(key)`: a temporary `KSKKey` is built (its `key_tag` field admits 1…65535 only),
+/-- `DNSRecords.from_key(key)`: a temporary `KSKKey` is built (its `key_tag` field allows 1…65535 only),
     then `create_trustanchor_keydigest` -/
 def DnsRecords.fromKey (hash : Hasher) (key : Key) : Res DnsRecords := do
   if key.keyTag < 1 ∨ 65535 < key.keyTag then err .validation
